@@ -22,7 +22,7 @@ class Prop:
     thorough_runs = 400000
     chunk = 50
     rule = ("per seeded tree of recursive scheduling (immediate/relative/absolute/periodic, through the scheduler handed to each action, "
-            "depth <= 3) on CatchScheduler(VirtualTimeScheduler): one fault-free run and one run per (raise position, handler verdict) — "
+            "depth <= 3; actions may return the handle of nested work, the handle of a root may be disposed at some instant) on CatchScheduler(VirtualTimeScheduler): one fault-free run and one run per (raise position, handler verdict) — "
             "every action and every periodic tick in turn. The handler must be called exactly once per raise with that exception; verdict "
             "True swallows it (periodic work stops), otherwise it propagates out of the inner scheduler's advance_to(); all other invocations "
             "(ids, clock, periodic state) must equal the run of the same tree on the bare inner scheduler. Distinct = (tree shape, raise "
@@ -34,7 +34,8 @@ class Prop:
         aid = len(ids)
         ids.append(aid)
         kind = rng.choice(["imm", "rel", "rel", "abs", "periodic"] if depth < 2 else ["imm", "rel", "abs"])
-        a = {"id": aid, "kind": kind, "t": rng.choice([0, 5, 10, 10, 30, 50]), "children": []}
+        a = {"id": aid, "kind": kind, "t": rng.choice([0, 5, 10, 10, 30, 50]), "children": [],
+             "ret_child": rng.random() < 0.4}  # the action returns the handle of the last piece of work it scheduled
         if kind == "periodic":
             a["t"] = rng.choice([5, 10, 30])
             a["ticks"] = rng.randrange(1, 5)
@@ -46,7 +47,11 @@ class Prop:
     def generate(self, rng, tier):
         ids = []
         roots = [self.gen_action(rng, ids, 0) for _ in range(rng.randrange(1, 4))]
-        return {"roots": roots}
+        sc = {"roots": roots}
+        if rng.random() < 0.4:
+            # the handle returned for one root is disposed at some instant: whatever that root's action returned (nested work) is cancelled
+            sc["cancel"] = [rng.choice(roots)["id"], rng.choice([0, 3, 7, 12, 20, 35, 60])]
+        return sc
 
     def positions(self, roots):
         pos = []
@@ -100,25 +105,34 @@ class Prop:
                     return k + 1
 
                 pdisp[aid] = sch.schedule_periodic(float(a["t"]), tick, 0)
-                return
+                return pdisp[aid]
 
             def action(scheduler, state=None):
                 log.append((aid, 0, float(inner.clock)))
-                for c in a["children"]:
-                    sched(c, scheduler)
+                hs = [sched(c, scheduler) for c in a["children"]]
                 if fault and fault[0] == aid and catch:
                     raise Boom((aid, 0))
-                return Disposable()
+                if fault and fault[0] == aid:
+                    return Disposable()  # (bare emulation of the raising action: an action that raises returns nothing)
+                return hs[-1] if (a.get("ret_child") and hs) else Disposable()
 
             if a["kind"] == "imm":
-                sch.schedule(action)
-            elif a["kind"] == "rel":
-                sch.schedule_relative(float(a["t"]), action)
-            else:
-                sch.schedule_absolute(float(a["t"]), action)
+                return sch.schedule(action)
+            if a["kind"] == "rel":
+                return sch.schedule_relative(float(a["t"]), action)
+            return sch.schedule_absolute(float(a["t"]), action)
 
+        handles = {}
         for r in sc["roots"]:
-            sched(r, s)
+            handles[r["id"]] = sched(r, s)
+        if sc.get("cancel"):
+            rid, t = sc["cancel"]
+
+            def cancel(_s, _st=None):
+                handles[rid].dispose()
+                return Disposable()
+
+            inner.schedule_absolute(float(t), cancel)
         escaped = []
         for _ in range(50):
             try:
